@@ -6,6 +6,8 @@
 (*                                                                         *)
 (*  valid module         -> exit status 0                                  *)
 (*  proper prefix of one -> exit status 0, or non-zero WITH a diagnostic   *)
+(*  valid module that arrives through something that cannot be seeked (a   *)
+(*  pipe, a FIFO): the translator may decline it - the same as for a prefix*)
 (*  in neither case: death by signal, abort, time-out, sanitizer report    *)
 (***************************************************************************)
 EXTENDS Naturals, Sequences, FiniteSets, TLC, Json, IOUtils
@@ -15,7 +17,7 @@ Obs == ndJsonDeserialize(IOEnv.INFILE)
 Legal(o) ==
     /\ ~o.timedout /\ o.signal = 0 /\ o.sanitizer = ""
     /\ (o.cls = "valid" => o.status = 0)
-    /\ (o.cls = "prefix" => (o.status = 0 \/ o.diagnostic))
+    /\ (o.cls \in {"prefix", "unseekable"} => (o.status = 0 \/ o.diagnostic))
 
 \* the option lattice (what a run may be given); used to validate that the driver's vectors are in it
 Threads == 1..64
